@@ -105,6 +105,13 @@ class ComponentLevel3( ComponentLevel2 ):
     # Shunning: bugfix:
 
     blk_name = "_lambda__{}".format( repr(o).replace(".","_").replace("[", "_").replace("]", "_").replace(":", "_") )
+
+    # Different targets can map to the same name ( s.a.b and s.a_b, s.x[0]
+    # and s.x_0_ ): number the later ones instead of rejecting the design
+    base_name, nth = blk_name, 1
+    while blk_name in s._dsl.name_upblk:
+      nth += 1
+      blk_name = f"{base_name}__{nth}"
     lambda_upblk = ast.FunctionDef(
       name=blk_name,
       args=ast.arguments(args=[], vararg=None, kwonlyargs=[], kw_defaults=[], posonlyargs=[], kwarg=None, defaults=[]),
